@@ -421,6 +421,13 @@ fn c01_jobs(tier: Tier) -> Vec<HybJob> {
         c.admission = crate::hyb::Admission::UpTo(1000);
         cfgs.push(c);
     }
+    // foyer's own PsyncIoEngine instead of the sim IO engine: device reads and writes happen inside
+    // spawn_blocking tasks, which the explorer orders like every other task.
+    for woi in [true, false] {
+        let mut c = HybCfg::small(woi, true);
+        c.psync = true;
+        cfgs.push(c);
+    }
     let opts = RunOpts {
         final_reads: true,
         final_restart: false,
@@ -442,7 +449,8 @@ fn c01_jobs(tier: Tier) -> Vec<HybJob> {
         ],
     };
     for (ci, cfg) in cfgs.iter().enumerate() {
-        let base_cfg = ci < 4;
+        // the four base configurations and the size-filtered ones get the full plan (programs of 4 calls)
+        let base_cfg = ci < 4 || matches!(cfg.admission, crate::hyb::Admission::UpTo(_));
         let alpha = c01_alphabet(cfg, if base_cfg { tier } else { Tier::Quick });
         for (len, policy, bound) in plan.iter() {
             if !base_cfg && *len > 3 {
